@@ -623,6 +623,16 @@ class Evaluator:
             for k, v in kw.items():
                 d.set(Const(k), v)
             return d
+        if name in ('builtins.dict.fromkeys',
+                    'collections.OrderedDict.fromkeys') and args:
+            elts = self.iterate(args[0])
+            if elts is None:
+                return None
+            d = DictV(kind='OrderedDict' if 'Ordered' in name else 'dict')
+            val = args[1] if len(args) > 1 else Const(None)
+            for e in elts:
+                d.set(e, val)
+            return d
         if name == 'collections.defaultdict':
             d = DictV(kind='defaultdict',
                       factory=args[0] if args else None)
